@@ -130,6 +130,12 @@ MUTANTS = [
      "            self._a_factor = cast(torch.Tensor, "
      "self._a_factor.wait())\n        return self._a_factor",
      ['C04']),
+    ('get_cov_divides_after_product', 'kfac/layers/utils.py',
+     'cov_a = a.t() @ (a / scale)', 'cov_a = (a.t() @ a) / scale',
+     ['C04', 'C10']),
+    ('inplace_factor_ema_a', 'kfac/layers/base.py',
+     'self.a_factor = (alpha * self.a_factor) + ((1 - alpha) * a_new)',
+     'self.a_factor.mul_(alpha).add_((1 - alpha) * a_new)', ['C09']),
     ('skip_restoring_steps', 'kfac/base_preconditioner.py',
      "        self._steps = state_dict['steps']\n",
      "        self._steps = 0 * state_dict['steps']\n", ['C09']),
